@@ -428,6 +428,49 @@ fn numeric_positions(ctx: &Ctx, rep: &mut Report) {
     rep.exhaustive.push(format!("{} numeric edge tokens (limits of every integer width in every spelling) in {} statement positions", numeric_edges().len(), frames.len()));
 }
 
+/// Programs that cross the capacity of the address space in every order: all sequences of up to
+/// 4 (thorough: 5) statements over an alphabet of large and small `.blkw`, `.stringz`, `.fill` and
+/// an instruction - whatever counts words must agree with itself whichever statement crosses 2^16.
+fn capacity_crossings(ctx: &Ctx, rep: &mut Report) {
+    let long = format!(".stringz \"{}\"", "a".repeat(32_767));
+    let alphabet: [(&str, u32); 9] = [(".blkw xFFFF", 65_535), (".blkw x8000", 32_768), (".blkw x7FFF", 32_767), (".blkw x1", 1), (".blkw x0", 0), (".stringz \"a\"", 2), (&long, 32_768), (".fill x1", 1), ("add r0 r0 #1", 1)];
+    let max = ctx.tier.pick(4usize, 5);
+    let mut n = 0u64;
+    let mut total = 0u64;
+    for len in 1..=max {
+        for code in 0..alphabet.len().pow(len as u32) {
+            n += 1;
+            if !ctx.mine(n) {
+                continue;
+            }
+            let mut k = code;
+            let mut text = String::new();
+            let mut words = 0u32;
+            for _ in 0..len {
+                let (t, w) = alphabet[k % alphabet.len()];
+                k /= alphabet.len();
+                text.push_str(t);
+                text.push('\n');
+                words += w;
+            }
+            // (below the capacity nothing is at stake: a sample of those is enough)
+            if words < 65_535 && code % 7 != 0 {
+                continue;
+            }
+            total += 1;
+            let case = Case { text, stack: false, mutated: true, kind: "capacity-crossing".into(), cli: false, must_reject: false };
+            judge_one(ctx, rep, &case, &mut |c| {
+                let mut o = judge_case(c);
+                o.label("capacity-crossings");
+                o.nontrivial = words >= 65_535;
+                o
+            });
+        }
+    }
+    let _ = total;
+    rep.exhaustive.push(format!("all sequences of 1..={max} statements over 9 kinds (.blkw xFFFF / x8000 / x7FFF / x1 / x0, .stringz of 2 and of 32,768 words, .fill, an instruction) whose sizes add up to 65,535 words or more (a seventh of the smaller ones)"));
+}
+
 /// A character that can start no token (NUL, other control characters, symbols outside the
 /// grammar), alone on a line, at every line boundary of small valid programs: the result must be
 /// a diagnostic.
@@ -564,7 +607,7 @@ impl Prop for C05 {
         "Texts: (a) valid generated programs with 1-4 token-level mutations (delete, duplicate, swap, replace/insert a token of any kind from a ~400-entry pool incl. directives, strings, edge literals, junk and numbers at the limits of every integer width 2^7..2^128 in every spelling), abutting, character insertion/deletion and truncation; \
          (b) token soup from the pool; (c) arbitrary unicode strings; (d) multi-byte / combining / NUL characters at every character position of 24 representative statements (enumerated); (e) every numeric edge token in every operand / label position of 19 statement frames (enumerated); (f) a fixed list of lone prefixes, directives in operand position and size extremes \
          (.blkw xFFFF + statements, label distances 0x7FFE..0xFFFD in both directions, 70,000 statements, 66,000 labels, 70,000-character strings/tokens, runs of 400,000 and 1,200,000 comment lines / blank lines / blanks / commas / colons / `.break` directives / labels). The size extremes are also judged through the real binary (`lace check`, unoptimised debug build; release too in thorough), where stack depth and frame sizes are the user's. thorough adds libFuzzer campaigns (fuzz/asm_total). \
-         (g) characters that can start no token (NUL, control characters, symbols outside the grammar, BOM, zero-width space, non-ASCII letters) alone on a line at every line boundary of three valid programs - these must end in a diagnostic, never in an image. Oracle: no panic in lex/parse/backpatch/emit/render under debug assertions + overflow checks (and release in thorough); every diagnostic label span denotes a substring of the source (in bounds, on character boundaries); the diagnostic is non-empty. \
+         (g) characters that can start no token (NUL, control characters, symbols outside the grammar, BOM, zero-width space, non-ASCII letters) alone on a line at every line boundary of three valid programs - these must end in a diagnostic, never in an image. (h) every sequence of up to 4 (thorough: 5) statements over {.blkw xFFFF, x8000, x7FFF, x1, x0, .stringz of 2 and of 32,768 words, .fill, an instruction} whose sizes add up to 65,535 words or more: the capacity of the address space crossed by every kind of statement after every other. Oracle: no panic in lex/parse/backpatch/emit/render under debug assertions + overflow checks (and release in thorough); every diagnostic label span denotes a substring of the source (in bounds, on character boundaries); the diagnostic is non-empty. \
          Non-trivial: at least one mutation changed the text and it contains a token. Distinct = hash(text, flag)."
     }
     fn assumptions(&self) -> Vec<String> {
@@ -581,6 +624,7 @@ impl Prop for C05 {
         char_positions(ctx, rep);
         numeric_positions(ctx, rep);
         junk_lines(ctx, rep);
+        capacity_crossings(ctx, rep);
         let n = ctx.share(ctx.tier.pick(60_000, 800_000));
         drive(ctx, rep, "mutated", mutated_cases(), n, &mut |c: &Case| {
             let mut o = judge_case(c);
